@@ -33,11 +33,12 @@ const (
 )
 
 type Thread struct {
-	ID    int
-	wake  chan struct{}
-	state int
-	waitM *Mutex
-	Op    string // label of the harness-level operation in flight (diagnostics)
+	ID       int
+	wake     chan struct{}
+	state    int
+	waitM    *Mutex
+	yielding bool
+	Op       string // label of the harness-level operation in flight (diagnostics)
 }
 
 type abortT struct{}
@@ -170,6 +171,10 @@ func (s *Sched) park(me *Thread) {
 // yield is a scheduling point: the current thread has declared its pending operation in its state.
 func (s *Sched) yield() {
 	me := s.cur
+	if s.aborting {
+		// a deferred function of a thread that is being torn down reached a scheduling point
+		panic(abortT{})
+	}
 	if s.finished {
 		// execution already over (failure): park until aborted
 		s.park(me)
@@ -191,7 +196,11 @@ func (s *Sched) yield() {
 	var en [8]*Thread
 	n := 0
 	runningEnabled := me != nil && me.enabled()
-	if runningEnabled {
+	yielding := me != nil && me.yielding
+	if me != nil {
+		me.yielding = false
+	}
+	if runningEnabled && !yielding {
 		en[n] = me
 		n++
 	}
@@ -200,6 +209,12 @@ func (s *Sched) yield() {
 			en[n] = t
 			n++
 		}
+	}
+	if runningEnabled && yielding {
+		// a polling thread gives way: the others come first and switching to them is not a preemption
+		en[n] = me
+		n++
+		runningEnabled = false
 	}
 	if n == 0 {
 		for _, t := range s.threads {
@@ -264,6 +279,15 @@ func (s *Sched) Blocked() []int {
 // Point is a plain scheduling point (used before atomics and other visible operations).
 func Point() {
 	s := S
+	s.yield()
+}
+
+// Yield is the scheduling point of a polling loop (sleep-and-retry): the other enabled threads are preferred.
+func Yield() {
+	s := S
+	if s.cur != nil {
+		s.cur.yielding = true
+	}
 	s.yield()
 }
 
@@ -397,7 +421,10 @@ func (o *Once) Do(f func()) {
 type Bounds struct {
 	Preempt  int
 	Spurious int
+	Env      int   // bound on non-default environment answers (KEnv)
 	MaxExecs int64 // cap (0 = none); hitting it is reported, never hidden
+	Shard    int   // with NShards > 1: this process explores every NShards-th subtree at deviation depth 2
+	NShards  int
 }
 
 type Stats struct {
@@ -412,16 +439,20 @@ type Stats struct {
 // Explore runs body for every choice sequence within the bounds. body builds a fresh world on a new Sched
 // (already installed as S), runs it, checks it, and returns false to stop (violation found).
 func Explore(b Bounds, body func(s *Sched) bool) (st Stats, failing []uint8) {
-	var rec func(prefix []uint8) bool
-	rec = func(prefix []uint8) bool {
+	var rec func(prefix []uint8, depth int) bool
+	branch := -1
+	rec = func(prefix []uint8, depth int) bool {
 		if b.MaxExecs > 0 && st.Execs >= b.MaxExecs {
 			st.Capped = true
 			return true
 		}
 		s := New(prefix, b.Spurious)
 		ok := body(s)
-		st.Execs++
-		st.Points += int64(s.Points)
+		if depth >= 2 || b.NShards <= 1 || b.Shard == 0 {
+			// the root execution and its direct children are run by every shard (they carry the subtrees) but counted once
+			st.Execs++
+			st.Points += int64(s.Points)
+		}
 		if len(s.Trace) > st.MaxDepth {
 			st.MaxDepth = len(s.Trace)
 		}
@@ -440,10 +471,13 @@ func Explore(b Bounds, body func(s *Sched) bool) (st Stats, failing []uint8) {
 		}
 		tr := s.Trace
 		// deviations used before position i
-		pre, spur := 0, 0
-		cost := make([][2]int, len(tr)+1)
+		pre, spur, env := 0, 0, 0
+		cost := make([][3]int, len(tr)+1)
 		for i, c := range tr {
-			cost[i] = [2]int{pre, spur}
+			cost[i] = [3]int{pre, spur, env}
+			if c.Kind == KEnv && c.Picked != 0 {
+				env++
+			}
 			if c.Kind == KThread && c.RunningEnabled && c.Picked != 0 {
 				pre++
 			}
@@ -453,9 +487,13 @@ func Explore(b Bounds, body func(s *Sched) bool) (st Stats, failing []uint8) {
 		}
 		for i := len(prefix); i < len(tr); i++ {
 			c := tr[i]
-			p, sp := cost[i][0], cost[i][1]
+			p, sp, ev := cost[i][0], cost[i][1], cost[i][2]
 			for alt := 1; alt < int(c.N); alt++ {
 				switch c.Kind {
+				case KEnv:
+					if ev+1 > b.Env {
+						continue
+					}
 				case KThread:
 					if c.RunningEnabled && p+1 > b.Preempt {
 						continue
@@ -465,18 +503,24 @@ func Explore(b Bounds, body func(s *Sched) bool) (st Stats, failing []uint8) {
 						continue
 					}
 				}
+				if depth == 1 && b.NShards > 1 {
+					branch++
+					if branch%b.NShards != b.Shard {
+						continue
+					}
+				}
 				np := make([]uint8, i+1)
 				for j := 0; j < i; j++ {
 					np[j] = tr[j].Picked
 				}
 				np[i] = uint8(alt)
-				if !rec(np) {
+				if !rec(np, depth+1) {
 					return false
 				}
 			}
 		}
 		return true
 	}
-	rec(nil)
+	rec(nil, 0)
 	return
 }
